@@ -3,6 +3,7 @@ package rules
 import (
 	"fmt"
 	"go/constant"
+	"go/token"
 	"go/types"
 	"os"
 	"sort"
@@ -32,6 +33,33 @@ func hasErrorResult(sig *types.Signature) bool {
 	return false
 }
 
+// errorFieldsOf: the indices of the error-typed fields of a structure type (a result such as
+// ResolvedDatabase{Nodes, Err} carries the error inside it).
+func errorFieldsOf(t types.Type) []int {
+	st, ok := t.Underlying().(*types.Struct)
+	if !ok {
+		return nil
+	}
+	var out []int
+	for i := 0; i < st.NumFields(); i++ {
+		if isErrorType(st.Field(i).Type()) {
+			out = append(out, i)
+		}
+	}
+	return out
+}
+
+// carriesError: the signature has an error result, or a structure result with an error field.
+func carriesError(sig *types.Signature) bool {
+	for i := 0; i < sig.Results().Len(); i++ {
+		t := sig.Results().At(i).Type()
+		if isErrorType(t) || len(errorFieldsOf(t)) > 0 {
+			return true
+		}
+	}
+	return false
+}
+
 func isErrorType(t types.Type) bool {
 	n, ok := t.(*types.Named)
 	return ok && n.Obj().Pkg() == nil && n.Obj().Name() == "error"
@@ -39,7 +67,7 @@ func isErrorType(t types.Type) bool {
 
 // calleesOf resolves the possible callees of a call instruction (static, or through the VTA graph).
 func calleesOf(p *core.Program, fn *ssa.Function, ci ssa.CallInstruction, cg *callgraph.Graph) []*ssa.Function {
-	if s := ci.Common().StaticCallee(); s != nil {
+	if s := core.Callee(ci.Common()); s != nil {
 		return []*ssa.Function{s}
 	}
 	var out []*ssa.Function
@@ -79,7 +107,7 @@ func errorChain(p *core.Program, isSeed func(*ssa.Function, ssa.CallInstruction)
 				if _, isB := ci.Common().Value.(*ssa.Builtin); isB {
 					continue
 				}
-				if !hasErrorResult(ci.Common().Signature()) {
+				if !carriesError(ci.Common().Signature()) {
 					continue
 				}
 				si := siteInfo{fn: fn, ci: ci, callees: calleesOf(p, fn, ci, cg)}
@@ -106,7 +134,7 @@ func errorChain(p *core.Program, isSeed func(*ssa.Function, ssa.CallInstruction)
 			}
 			// a deferred closure's parent, or the callers of a helper with an *error out-parameter, carry the error
 			for _, u := range unitsFor(p, si.fn, 0) {
-				if hasErrorResult(u.Signature) && !P[u] {
+				if carriesError(u.Signature) && !P[u] {
 					P[u] = true
 					changed = true
 				}
@@ -128,7 +156,7 @@ func errorChain(p *core.Program, isSeed func(*ssa.Function, ssa.CallInstruction)
 		if why == "" {
 			continue
 		}
-		if s := si.ci.Common().StaticCallee(); s != nil {
+		if s := core.Callee(si.ci.Common()); s != nil {
 			name = s.String()
 		} else if si.ci.Common().IsInvoke() {
 			name = "interface method " + si.ci.Common().Method.Name()
@@ -216,7 +244,7 @@ func unitsFor(p *core.Program, fn *ssa.Function, depth int) []*ssa.Function {
 		for _, g := range p.Funcs {
 			for _, b := range g.Blocks {
 				for _, in := range b.Instrs {
-					if ci, ok := in.(ssa.CallInstruction); ok && ci.Common().StaticCallee() == fn {
+					if ci, ok := in.(ssa.CallInstruction); ok && core.Callee(ci.Common()) == fn {
 						for _, u := range unitsFor(p, g, depth+1) {
 							if !seen[u] {
 								seen[u] = true
@@ -262,13 +290,30 @@ func checkErrSiteIn(c *core.Ctx, rule string, s errSite, unit *ssa.Function) {
 			sig := site.Common().Signature()
 			e := absint.Sym{Name: "E!"}
 			x.AssumeNil(st, e, false)
+			withErr := func(t types.Type) absint.Value {
+				stt := t.Underlying().(*types.Struct)
+				fs := make([]absint.Value, stt.NumFields())
+				for k := range fs {
+					if isErrorType(stt.Field(k).Type()) {
+						fs[k] = e
+					} else {
+						fs[k] = x.Fresh(st, fmt.Sprintf("f%d", k))
+					}
+				}
+				return &absint.Struct{T: t, Fields: fs}
+			}
 			if sig.Results().Len() == 1 {
+				if t0 := sig.Results().At(0).Type(); !isErrorType(t0) && len(errorFieldsOf(t0)) > 0 {
+					return withErr(t0), true
+				}
 				return e, true
 			}
 			el := make([]absint.Value, sig.Results().Len())
 			for i := range el {
 				if isErrorType(sig.Results().At(i).Type()) {
 					el[i] = e
+				} else if len(errorFieldsOf(sig.Results().At(i).Type())) > 0 {
+					el[i] = withErr(sig.Results().At(i).Type())
 				} else if isParseCallbackValue(site) && i == 0 {
 					// ParseCallback contract: an error counts only together with stop=true (C17-R3 checks the callbacks)
 					el[i] = absint.Const{V: constant.MakeBool(true)}
@@ -331,6 +376,10 @@ func checkErrSiteIn(c *core.Ctx, rule string, s errSite, unit *ssa.Function) {
 		res := unit.Signature.Results()
 		for i := 0; i < res.Len() && i < len(tm.Ret); i++ {
 			if !isErrorType(res.At(i).Type()) {
+				// the error handed back inside a structure
+				if len(errorFieldsOf(res.At(i).Type())) > 0 && absint.Mentions(tm.Ret[i], "E!") {
+					ok = true
+				}
 				continue
 			}
 			v := tm.Ret[i]
@@ -361,10 +410,50 @@ func checkErrSiteIn(c *core.Ctx, rule string, s errSite, unit *ssa.Function) {
 // *csv.Writer / *tabwriter.Writer (sticky error), possibly through an interface
 // parameter all of whose callers pass one.
 func writerIsBuffered(p *core.Program, fn *ssa.Function, v ssa.Value, depth int) bool {
-	if depth > 3 {
+	if depth > 5 {
 		return false
 	}
+	if stickyType(v.Type()) {
+		return true
+	}
+	// a writer kept in a field of interface type (errWriter{w}, rowPrinter{w}): every store into that field, anywhere
+	// in the tree, must be a buffered writer
+	fieldStores := func(st types.Type, idx int) bool {
+		n := 0
+		for _, g := range p.Funcs {
+			for _, b := range g.Blocks {
+				for _, in := range b.Instrs {
+					sto, ok := in.(*ssa.Store)
+					if !ok {
+						continue
+					}
+					fa, ok := sto.Addr.(*ssa.FieldAddr)
+					if !ok || fa.Field != idx {
+						continue
+					}
+					pt, ok := fa.X.Type().Underlying().(*types.Pointer)
+					if !ok || !types.Identical(pt.Elem(), st) {
+						continue
+					}
+					n++
+					if !writerIsBuffered(p, g, sto.Val, depth+1) {
+						return false
+					}
+				}
+			}
+		}
+		return n > 0
+	}
 	switch x := v.(type) {
+	case *ssa.UnOp:
+		if fa, ok := x.X.(*ssa.FieldAddr); ok && x.Op == token.MUL {
+			if pt, ok := fa.X.Type().Underlying().(*types.Pointer); ok {
+				return fieldStores(pt.Elem(), fa.Field)
+			}
+		}
+		return false
+	case *ssa.Field:
+		return fieldStores(x.X.Type(), x.Field)
 	case *ssa.MakeInterface:
 		return stickyType(x.X.Type())
 	case *ssa.ChangeInterface:
@@ -381,7 +470,7 @@ func writerIsBuffered(p *core.Program, fn *ssa.Function, v ssa.Value, depth int)
 			for _, b := range g.Blocks {
 				for _, in := range b.Instrs {
 					ci, ok := in.(ssa.CallInstruction)
-					if !ok || ci.Common().StaticCallee() != fn || idx >= len(ci.Common().Args) {
+					if !ok || core.Callee(ci.Common()) != fn || idx >= len(ci.Common().Args) {
 						continue
 					}
 					if g == fn && ci.Common().Args[idx] == v {
@@ -408,7 +497,7 @@ func isParseCallbackValue(site ssa.CallInstruction) bool {
 	if site.Common().IsInvoke() {
 		return false
 	}
-	if cal := site.Common().StaticCallee(); cal != nil {
+	if cal := core.Callee(site.Common()); cal != nil {
 		// a method of the parser that forwards what the callback answered: (stop bool, err error)
 		res := cal.Signature.Results()
 		if core.FnPkgPath(cal) == parserPkg && res.Len() == 2 && isErrorType(res.At(1).Type()) {
